@@ -219,6 +219,32 @@ def run(ctx):
                                       {'routine': 'multi_color', 'what': 'reconstruction_vs_fresh', 'aperture': apk})
                 except Exception as e:
                     ctx.note('fresh propagator could not re-propagate the returned hologram: %r' % (e,))
+    # ---- long or fast-learning runs (iterations x learning rate of 10 and more: the raw phase variables drift over several periods): the returned phases
+    # are still inside [0, 2 pi) on the 2^bits grid
+    for (lr_, its_) in ((1.0, 10), (0.4, 40)) if ctx.quick else ((1.0, 10), (0.4, 60), (0.2, 150), (2.0, 12)):
+        for dp_ in (False, True):
+            h, w, bits = 32, 32, 8
+            wl = [0.6, 0.5, 0.45]
+            torch.manual_seed(rng.randrange(10 ** 6))
+            prop = LW.propagator(resolution=[h, w], wavelengths=wl, pixel_pitch=dx, number_of_frames=3, number_of_depth_layers=2, volume_depth=2.0,
+                                 image_location_offset=1.0, propagation_type='Bandlimited Angular Spectrum', propagator_type='forward', device=torch.device('cpu'))
+            opt = LW.multi_color_hologram_optimizer(wavelengths=wl, resolution=[h, w], targets=torch.rand(2, 3, h, w), propagator=prop, number_of_frames=3,
+                                                   number_of_depth_layers=2, learning_rate=lr_, double_phase=dp_, device=torch.device('cpu'))
+            rec = {'routine': 'multi_color_hologram_optimizer', 'h': h, 'w': w, 'bits': bits, 'learning_rate': lr_, 'iterations': its_, 'double_phase': dp_}
+            ctx.case(('mc_schedule', lr_, its_, dp_), True)
+            ctx.count('multi_color/schedule lr x iterations = %g' % (lr_ * its_))
+            try:
+                phases, recon, _, _, _ = opt.optimize(number_of_iterations=its_, weights=[1., 1., 1., 0.], bits=bits)
+            except Exception as e:
+                ctx.violation('multi_color_hologram_optimizer.optimize raised %r (learning rate %g, %d iterations)' % (e, lr_, its_), rec, {'routine': 'multi_color', 'what': 'raises'})
+                continue
+            p = phases.detach().numpy().astype(np.float64)
+            lv = p / (2 * np.pi) * 2 ** bits
+            tiny = bool(np.any(np.abs(lv - 2 ** bits) < 1e-3)) and p.min() >= 0 and p.max() <= 2 * np.pi + 1e-6
+            if not np.isfinite(p).all() or p.min() < 0 or p.max() >= 2 * np.pi or np.max(np.abs(lv - np.round(lv))) > 1e-3:
+                ctx.violation('multi_color optimiser after %d iterations at learning rate %g: returned phases are not on the 2^%d grid inside [0, 2pi) (min %g max %g, '
+                              '%d pixels outside)' % (its_, lr_, bits, p.min(), p.max(), int(np.sum((p < 0) | (p >= 2 * np.pi)))), rec,
+                              {'routine': 'multi_color', 'what': 'phase_grid', 'level_2powbits': tiny})
     # ---- results stay what they were: two optimisations share ONE propagator (two targets, collected and verified at the end); the pair returned by the
     # first run must still be a hologram and its own reconstruction after the second run
     for (h, w) in ((32, 32), (33, 35)):
